@@ -2,8 +2,8 @@ package rules
 
 import (
 	"fmt"
-	"sort"
 	"go/token"
+	"sort"
 	"strings"
 
 	"golang.org/x/tools/go/ssa"
